@@ -183,6 +183,11 @@ func (u *c16Universe) observe(perm int, rec *sched.Recorder) *c16Obs {
 	o := &c16Obs{}
 	if rec != nil {
 		rec.PermIndex = perm
+	} else if instrOn {
+		// own the iteration order in every pass (the native order is random)
+		own := &sched.Recorder{PermIndex: perm}
+		attachHook(own)
+		defer attachHook(nil)
 	}
 	for _, n := range u.names {
 		if n != "" && !strings.HasPrefix(n, "both:") {
@@ -218,6 +223,25 @@ func (u *c16Universe) observe(perm int, rec *sched.Recorder) *c16Obs {
 }
 
 func mutateInstance(cl psatoken.IClaims) {
+	// the profile claim has no setter; change it through the exported field as an embedding profile could
+	switch x := cl.(type) {
+	case *psatoken.P1Claims:
+		if x.Profile != nil {
+			*x.Profile = "mutated-profile"
+		}
+	case *psatoken.P2Claims:
+		if x.Profile != nil {
+			_ = x.Profile.Set("http://mutated.example/profile")
+		}
+	case *ExtP1Claims:
+		if x.Profile != nil {
+			*x.Profile = "mutated-profile"
+		}
+	case *ExtP2Claims:
+		if x.Profile != nil {
+			_ = x.Profile.Set("http://mutated.example/profile")
+		}
+	}
 	_ = cl.SetClientID(424242)
 	_ = cl.SetSecurityLifeCycle(0x4001)
 	_ = cl.SetImplID(pat(32, 0xee))
@@ -395,6 +419,15 @@ func c16System(k int) func() bfs.System {
 				for j := i + 1; j < len(snaps); j++ {
 					if a, b, ov := deephash.Overlap(snaps[i], snaps[j]); ov {
 						fail("C16:instances-share-memory", "%s and %s share mutable memory (%s / %s)", obs.labels[i], obs.labels[j], a.What, b.What)
+					}
+				}
+			}
+			// instances of two different passes are disjoint as well (a factory must not hand out shared parts)
+			for i, inst := range obs2.instances {
+				s2 := deephash.Take(inst, snapOpts)
+				for j := range snaps {
+					if a, b, ov := deephash.Overlap(s2, snaps[j]); ov {
+						fail("C16:instances-share-memory", "%s (second call) and %s (first call) share mutable memory (%s / %s)", obs2.labels[i], obs.labels[j], a.What, b.What)
 					}
 				}
 			}
